@@ -20,6 +20,9 @@ type SeqV struct {
 	Elems []Value
 	Len   *Term
 	Typ   types.Type
+	// symbolic sequences (result of strings.Split): element i is At(i), Elems is empty; SymID names the sequence
+	At    func(i *Term) Value
+	SymID *Term
 }
 
 func (x *Exec) havocSliceOf(e *Env, t types.Type, u *types.Slice, base string) Value {
@@ -30,6 +33,23 @@ func (x *Exec) havocSliceOf(e *Env, t types.Type, u *types.Slice, base string) V
 			sv.Elems = append(sv.Elems, x.havoc(e, u.Elem(), fmt.Sprintf("%s[%d]", base, i)))
 		}
 		return sv
+	}
+	if b, ok := u.Elem().Underlying().(*types.Basic); ok && b.Kind() == types.String {
+		// an arbitrary sequence of strings: segments of one arbitrary byte sequence
+		a := x.alloc()
+		arr := x.fresh(base+".bytes", ArrS(e.R().sortOf(byteT)))
+		e.st.mem[a] = ArrayV{T: arr, N: -1, Elem: byteT}
+		e.st.assume(x.elemRangeAxiom(e, arr, byteT))
+		cnt := x.fresh(base+".n", IntS)
+		stA := x.fresh(base+".st", ArrS(IntS))
+		enA := x.fresh(base+".en", ArrS(IntS))
+		i := x.fresh("i", IntS)
+		e.st.assume(Le(IntC(0), cnt))
+		e.st.assume(Forall([]*Term{i}, And(Le(IntC(0), Select(stA, i)), Le(Select(stA, i), Select(enA, i)))))
+		return SeqV{Len: cnt, Typ: t, SymID: x.fresh(base+".id", IntS), At: func(ix *Term) Value {
+			ln := Sub(Select(enA, ix), Select(stA, ix))
+			return SliceV{Alloc: a, Off: Select(stA, ix), Len: ln, Cap: ln, Elem: byteT, IsString: true, Nil: FalseT, Typ: u.Elem()}
+		}}
 	}
 	unsupported("symbolic slice of %s (give its length with a seqlen clause)", u.Elem())
 	return nil
@@ -129,6 +149,11 @@ func (x *Exec) nativeMethod(e *Env, callee *types.Func, recv ast.Expr, n *ast.Ca
 			if h, isHash := rv.(HashV); isHash {
 				return x.hashMethod(e, recv, h, callee.Name(), n)
 			}
+		}
+	}
+	if pp == "regexp" && key == "Regexp.FindStringSubmatch" {
+		if re, ok := e.expr(recv).(RegexV); ok {
+			return x.regexFindStringSubmatch(e, re, n)
 		}
 	}
 	switch pp + "." + key {
@@ -236,6 +261,13 @@ func (x *Exec) nativeFunc(e *Env, callee *types.Func, n *ast.CallExpr) (Value, b
 		return Scalar{And(Not(ev.Nil), Eq(ev.Kind, tv.Kind)), boolT}, true
 	case "errors.As":
 		return x.errorsAs(e, n), true
+	case "strings.Split":
+		return x.stringsSplit(e, n)
+	case "regexp.MustCompile":
+		if pat, ok := regexLiteral(n); ok {
+			return RegexV{Pattern: pat, Typ: callee.Type().(*types.Signature).Results().At(0).Type()}, true
+		}
+		return nil, false
 	case "strings.HasPrefix", "strings.HasSuffix", "strings.TrimPrefix", "strings.TrimSuffix":
 		sv, ok1 := e.expr(n.Args[0]).(SliceV)
 		pv, ok2 := e.expr(n.Args[1]).(SliceV)
